@@ -59,7 +59,8 @@ def replay(pid, path):
         run = Run(pid, "quick", 0)
         opts = [rec["options"]]
         div, tot = run.execute([g], [rec["input"]], opts, lambda gg: [(0, 0)], [[f for f in rec["flags"] if f != "-support-left-recursion" and not f.startswith("G") and f != "-alternate-entrypoints"]],
-                               cmp=dict(ctx=(pid == "C02"), norm=("-optimize-grammar" in rec["flags"]), errs=("-optimize-grammar" not in rec["flags"])))
+                               cmp=dict(ctx=(pid == "C02"), norm=("-optimize-grammar" in rec["flags"]), errs=("-optimize-grammar" not in rec["flags"])),
+                               lower=rec.get("lower"), uclass=rec.get("uclass"))
         print("replayed 1 case: %d divergence(s) %s" % (len(div), [d["df"] for d in div]))
         if div:
             print("VIOLATION property=%s replay=%s" % (pid, path))
